@@ -165,15 +165,19 @@ inductive UnseenMode
   | error | warning | silent
   deriving DecidableEq, Repr
 
+/-- a new value is unseen: missing, or not one of the remembered levels
+(`set(x) - set(self.levels)` is non-empty) -/
+def isUnseen (levels : List Level) : Option Level → Bool
+  | some l => !levels.contains l
+  | none => true
+
 /-- `eval_new_data_categoric`: rows of the remembered contrast matrix; unseen values follow the
 configured policy. Returns the matrix and whether a warning was issued. -/
 def newCategoric (st : CompState) (mode : UnseenMode) (xs : List (Option Level)) : M (Matrix × Bool) := do
   match st.contrast with
   | none => .error (.unmodelled "no contrast matrix (response with a reference level)")
   | some cm =>
-    let unseen := xs.any (fun x => match x with
-      | some l => !st.levels.contains l
-      | none => true)
+    let unseen := xs.any (isUnseen st.levels)
     if !unseen then do
       pure (← codeRows cm st.levels xs, false)
     else if mode == .error then .error (.valueError "levels not present in the original data set")
